@@ -448,6 +448,13 @@ def procparJ (j : Json) : M Json := do
         ("params", Json.arr (ps.map (fun p => Json.mkObj [("name", Json.str p.1), ("val", pvalJ p.2)])).toArray),
         ("array", arr)])
 
+def indexAxisJ (j : Json) : M Json := do
+  let n ← jNat (← jField j "n")
+  let start ← jInt (← jField j "start")
+  let step ← jInt (← jField j "step")
+  pure (Json.mkObj [("outcome", "ok"),
+    ("axis", Json.arr ((Dnp.ImportAxis.indexAxis n start step).map (fun (x : Int) => Json.str (toString x))).toArray)])
+
 def lineshapeJ (j : Json) : M Json := do
   let kind ← jStr (← jField j "kind")
   let x ← (← jRatList (← jField j "x")).mapM (fun q => pure (ratToFloat q))
@@ -704,6 +711,12 @@ partial def loop (h : IO.FS.Stream) (out : IO.FS.Stream) (s : Store) : IO Unit :
     else
     if (j.getObjVal? "op").toOption == some (Json.str "procpar") then
       match procparJ j with
+      | .ok r => do out.putStrLn (Json.compress r); loop h out s
+      | .error e => do
+        out.putStrLn (Json.compress (Json.mkObj [("outcome", Json.str ("driver-error:" ++ e))])); loop h out s
+    else
+    if (j.getObjVal? "op").toOption == some (Json.str "indexaxis") then
+      match indexAxisJ j with
       | .ok r => do out.putStrLn (Json.compress r); loop h out s
       | .error e => do
         out.putStrLn (Json.compress (Json.mkObj [("outcome", Json.str ("driver-error:" ++ e))])); loop h out s
